@@ -11,6 +11,8 @@ import (
 	"crypto/sha1"
 	"crypto/sha256"
 	"crypto/x509"
+	"crypto/x509/pkix"
+	"encoding/asn1"
 	"encoding/base64"
 	"encoding/pem"
 	"errors"
@@ -124,10 +126,20 @@ type TokenOpts struct {
 	CorruptSig bool
 	SignWith   crypto.Signer // default: the authority's key
 	Serial     int64
+	// Detached: the SignedData carries no copy of what it signs (the
+	// encapsulated content is absent; PKCS#7 section 9.1 / CMS 5.2 allow that,
+	// the signed messageDigest attribute is then the only link to the content).
+	Detached bool
+	// DigestOver, if not nil: the signed messageDigest attribute is the digest
+	// of these octets instead of the digest of the content.
+	DigestOver []byte
 }
 
 func (a *Authority) signerInfo(econtentType []byte, content []byte, t time.Time, o TokenOpts) []byte {
 	h := sha256.Sum256(content)
+	if o.DigestOver != nil {
+		h = sha256.Sum256(o.DigestOver)
+	}
 	ch := sha1.Sum(a.Cert.Raw)
 	attrs := d.SortDER([][]byte{
 		d.Seq(oidContentType, d.SetAsGiven(econtentType)),
@@ -153,7 +165,11 @@ func (a *Authority) signerInfo(econtentType []byte, content []byte, t time.Time,
 }
 
 func (a *Authority) signedData(econtentType, content []byte, t time.Time, o TokenOpts) []byte {
-	parts := [][]byte{d.Int(3), d.SetAsGiven(d.Seq(oidSHA256, d.Null())), d.Seq(econtentType, d.Ctx(0, true, d.Octets(content)))}
+	encap := d.Seq(econtentType, d.Ctx(0, true, d.Octets(content)))
+	if o.Detached {
+		encap = d.Seq(econtentType)
+	}
+	parts := [][]byte{d.Int(3), d.SetAsGiven(d.Seq(oidSHA256, d.Null())), encap}
 	if !o.NoCerts {
 		certs := [][]byte{a.Cert.Raw}
 		for _, c := range a.Chain {
@@ -208,6 +224,83 @@ func LegacyQuery(b []byte) ([]byte, error) {
 func (a *Authority) LegacyResp(encryptedDigest []byte, t time.Time, o TokenOpts) []byte {
 	der := a.signedData(oidData, encryptedDigest, t, o)
 	return []byte(base64.StdEncoding.EncodeToString(der))
+}
+
+// LegacyDER is LegacyResp before the base64 transport encoding: the PKCS#7 as
+// it is stored in a cache or embedded in a ClickOnce manifest.
+func (a *Authority) LegacyDER(encryptedDigest []byte, t time.Time, o TokenOpts) []byte {
+	return a.signedData(oidData, encryptedDigest, t, o)
+}
+
+// CounterSigner builds the value of a PKCS#9 countersignature attribute
+// (1.2.840.113549.1.9.6): a bare SignerInfo over the given signature value,
+// signing time in its attributes; the certificates travel in the parent.
+func (a *Authority) CounterSigner(encryptedDigest []byte, t time.Time, o TokenOpts) []byte {
+	return a.signerInfo(oidData, encryptedDigest, t, o)
+}
+
+// Extended key usage purposes (RFC 5280 4.2.1.12, RFC 3161 2.3).
+var (
+	EKUTimeStamping = asn1.ObjectIdentifier{1, 3, 6, 1, 5, 5, 7, 3, 8}
+	EKUCodeSigning  = asn1.ObjectIdentifier{1, 3, 6, 1, 5, 5, 7, 3, 3}
+	EKUClientAuth   = asn1.ObjectIdentifier{1, 3, 6, 1, 5, 5, 7, 3, 2}
+	EKUAny          = asn1.ObjectIdentifier{2, 5, 29, 37, 0}
+	// EKUPrivate is a purpose from a private arc that no library has a name for.
+	EKUPrivate = asn1.ObjectIdentifier{1, 3, 6, 1, 4, 1, 99999, 3, 1}
+)
+
+// CertSpec describes a certificate to issue. EKU nil = no extended key usage
+// extension at all; otherwise the extension lists exactly these purposes, with
+// the criticality given.
+type CertSpec struct {
+	CN          string
+	CA          bool
+	EKU         []asn1.ObjectIdentifier
+	EKUCritical bool
+	NotBefore   time.Time
+	NotAfter    time.Time
+}
+
+// Issue signs a certificate for pub as described; parent nil = self-signed
+// with parentKey.
+func Issue(spec CertSpec, pub crypto.PublicKey, parent *x509.Certificate, parentKey crypto.Signer) *x509.Certificate {
+	serial, err := rand.Int(rand.Reader, big.NewInt(1<<62))
+	if err != nil {
+		panic(err)
+	}
+	t := &x509.Certificate{
+		SerialNumber:          serial,
+		Subject:               pkix.Name{Country: []string{"US"}, Organization: []string{"verif fixtures"}, CommonName: spec.CN},
+		NotBefore:             spec.NotBefore,
+		NotAfter:              spec.NotAfter,
+		BasicConstraintsValid: true,
+		IsCA:                  spec.CA,
+		KeyUsage:              x509.KeyUsageDigitalSignature,
+	}
+	if spec.CA {
+		t.KeyUsage = x509.KeyUsageCertSign | x509.KeyUsageCRLSign
+	}
+	if spec.EKU != nil {
+		var oids [][]byte
+		for _, o := range spec.EKU {
+			arcs := make([]int, len(o))
+			copy(arcs, o)
+			oids = append(oids, d.OID(arcs...))
+		}
+		t.ExtraExtensions = []pkix.Extension{{Id: asn1.ObjectIdentifier{2, 5, 29, 37}, Critical: spec.EKUCritical, Value: d.Seq(oids...)}}
+	}
+	if parent == nil {
+		parent = t
+	}
+	der, err := x509.CreateCertificate(rand.Reader, t, parent, pub, parentKey)
+	if err != nil {
+		panic(err)
+	}
+	c, err := x509.ParseCertificate(der)
+	if err != nil {
+		panic(err)
+	}
+	return c
 }
 
 // SHA256Alg / SHA1Alg are AlgorithmIdentifier encodings.
